@@ -63,7 +63,7 @@ pub fn run_case(case: &Case) -> (Vec<(String, String)>, Info) {
     let mut info = Info::default();
     let mut v: Vec<(String, String)> = vec![];
     let gp = case.gp;
-    let ncfg = NodeCfg { gp, heartbeat: 100, social_stake: 0, loading_completed: true };
+    let ncfg = NodeCfg { gp, heartbeat: 100, social_stake: 0, loading_completed: true, prune: 8 };
     let mut node = Node::new(ncfg, 0);
     let me = key(0);
     let issuance: Vec<(u8, u64)> = vec![(0, 90_000_000), (0, 80_000_000), (0, 7_000), (1, 500_000_000), (2, 600_000_000), (3, 300_000_000), (0, 1)];
